@@ -193,7 +193,7 @@ struct Ctx<'a> {
     layout: String,
     rows: u64,
     recycle: bool,
-    /// (i, k): explore only the histories whose first call has index = i modulo k
+    /// (i, k): explore only the histories whose second call has index = i modulo k
     shard: (u64, u64),
     inst: Option<Inst>,
     fallbacks: u64,
@@ -317,8 +317,10 @@ impl Ctx<'_> {
     fn dfs(&mut self, hist: &mut Vec<(Op, i64)>, live: &[usize]) {
         let d = hist.len() + 1;
         for (ci, op) in self.candidates(hist, live).into_iter().enumerate() {
-            if d == 1 && ci as u64 % self.shard.1 != self.shard.0 {
-                continue; // another shard explores this first call
+            // sharding is by the second call (there are only a few first calls once symmetric
+            // histories are removed); the rows of depth 1 appear in every shard
+            if d == 2 && ci as u64 % self.shard.1 != self.shard.0 {
+                continue; // another shard explores this extension
             }
             match self.run_and_log(hist, &op, d) {
                 None => continue,
